@@ -5,11 +5,10 @@ CONSTANTS
   MCoff = 2
   MCwin = 1
   MCcw = 2
-  MCpk = 3
-  MCbk = 2
-  MCdup = 1
-  MCack = FALSE
+  MCpk = 2
+  MCbk = 1
+  MCdup = 0
+  MCack = TRUE
 INVARIANTS CreditRespected ReadPrefix FinalSizeConsistent
 PROPERTIES NoStreamAfterReset AdvertisedMonotone
 CHECK_DEADLOCK FALSE
-VIEW ViewNoAck
